@@ -474,6 +474,11 @@ func (r *Runner) replayObligation(prop string, o *Obligation) (*ReplayRecord, st
 		}
 		return save()
 	}
+	if fc != nil && o.RawQuery != "" {
+		if r.fnvReplay(rec, o) {
+			return save()
+		}
+	}
 	if fc == nil || fc.decl == nil {
 		rec.Verdict = "no-model"
 		rec.Reason = "solver answered " + o.Status + " (not a function obligation)"
@@ -821,6 +826,91 @@ func TestVrfReplay(t *testing.T) {
 	} else {
 		rec.Verdict = "not-reproduced"
 		rec.Reason = "no data race observed in the sampled schedules"
+	}
+	return true
+}
+
+// fnvReplay: a model of the key lemma is a pair of distinct (address, id) with the same map key;
+// the real cache is shown to hand exporter A's template to exporter B.
+func (r *Runner) fnvReplay(rec *ReplayRecord, o *Obligation) bool {
+	sess, first, err := startSession(o.RawQuery)
+	if err != nil || strings.TrimSpace(first) != "sat" {
+		if sess != nil {
+			sess.close()
+		}
+		return false
+	}
+	defer sess.close()
+	get := func(prefix string) []int {
+		var out []int
+		for i := 0; i < o.RawVars; i++ {
+			v, err := sess.value(fmt.Sprintf("%s%d", prefix, i))
+			if err != nil {
+				return nil
+			}
+			var x int
+			if strings.HasPrefix(v, "#x") {
+				n, _ := strconv.ParseInt(v[2:], 16, 32)
+				x = int(n)
+			} else if strings.HasPrefix(v, "#b") {
+				n, _ := strconv.ParseInt(v[2:], 2, 32)
+				x = int(n)
+			}
+			out = append(out, x)
+		}
+		return out
+	}
+	a, b := get("a"), get("b")
+	if a == nil || b == nil {
+		return false
+	}
+	n := o.RawVars - 2
+	ip := func(k []int) string {
+		var parts []string
+		for _, x := range k[:n] {
+			parts = append(parts, strconv.Itoa(x))
+		}
+		return "net.IP{" + strings.Join(parts, ", ") + "}"
+	}
+	id := func(k []int) int { return k[n]*256 + k[n+1] }
+	rec.Inputs = []string{fmt.Sprintf("exporter A = %s id %d", ip(a), id(a)), fmt.Sprintf("exporter B = %s id %d", ip(b), id(b))}
+	for _, pkgPath := range []string{repoModule + "/ipfix"} {
+		src := fmt.Sprintf(`package ipfix
+
+import (
+	"fmt"
+	"net"
+	"testing"
+)
+
+func TestVrfReplay(t *testing.T) {
+	m := GetCache("")
+	a, b := %s, %s
+	m.insert(%d, a, TemplateRecord{TemplateID: %d, FieldCount: 7})
+	got, ok := m.retrieve(%d, b)
+	if ok {
+		fmt.Println("VRF-RESULT VIOLATED exporter", b, "id", %d, "never announced a template but retrieve returns", got, "(announced by", a, ")")
+	} else {
+		fmt.Println("VRF-RESULT HOLDS")
+	}
+}
+`, ip(a), ip(b), id(a), id(a), id(b), id(b))
+		rec.Test = src
+		rec.TestPkg = pkgPath
+		out, cmdline := runOverlayTest(r.w.RepoDir, pkgPath, src, "TestVrfReplay")
+		rec.Command = cmdline
+		rec.Output = truncate(out, 3000)
+		if strings.Contains(out, "VRF-RESULT VIOLATED") {
+			rec.Verdict = "confirmed"
+			for _, l := range strings.Split(out, "\n") {
+				if strings.HasPrefix(l, "VRF-RESULT VIOLATED") {
+					rec.Reason = strings.TrimPrefix(l, "VRF-RESULT VIOLATED ")
+				}
+			}
+		} else {
+			rec.Verdict = "not-reproduced"
+			rec.Reason = "the colliding pair did not reproduce on the real cache"
+		}
 	}
 	return true
 }
